@@ -174,3 +174,10 @@ CLAIMED["C15"]["text"] = CLAIMED["C15"]["text"].replace("Nothing is discharged d
     "PROVED from the real AST: balanced_wrap returns '' for an empty text and otherwise the newline-join of textwrap.wrap(text, w, break_long_words=False) for some 1 <= w <= width whose line count equals that of the requested width "
     "(while-loop invariant with a ghost witness, termination measure) - with the ASSUMED library contract of textwrap.wrap this is the wrapped-label clause (every word kept, width respected unless a single word is longer, no more lines than greedy). "
     "All other clauses are bounded only.")
+
+CLAIMED["C01"]["text"] = CLAIMED["C01"]["text"].replace("Also proved: Table.entry and the cost evaluator",
+    "PROVED on top of them: _compute_thl_table (nested post-order loops; every leaf cell holds 0 at the leaf's species and nothing elsewhere, every internal cell is lower-closed: no placement of the two children priced by the event model "
+    "over the children's cells is cheaper than the cell) and the L2 lemma lemma_thl_lower_bound (structural induction over the object tree, one case per event kind, symbolic costs): in a lower-closed table the cost the evaluator assigns to ANY total "
+    "species mapping of a subtree is at least the table value at the root's species - i.e. no valid reconciliation is cheaper than what the table says. Also proved: Table.entry and the cost evaluator")
+CLAIMED["C01"]["text"] = CLAIMED["C01"]["text"].replace("BOUNDED only (labelled): table fill order, decoding, re-ranking,", "BOUNDED only (labelled): decoding (the table value is attained by a returned reconciliation), re-ranking,")
+CLAIMED["C01"]["note"] = CLAIMED["C01"]["note"].replace("The lower-bound theorem from a Bellman-closed table to the minimum over all reconciliations is not proved.", "Lemma recursion is structural (on the two children), its termination is not checked; Table.__init__ is an assumed contract (a new table has no cell).")
